@@ -153,3 +153,22 @@ long __wrap_random(void) { return HOOKED(random_) ? simos_hooks.random_() : __re
 
 int __real_pthread_mutex_timedlock(pthread_mutex_t *, const struct timespec *);
 int __wrap_pthread_mutex_timedlock(pthread_mutex_t *m, const struct timespec *ts) { return HOOKED(mutex_timedlock_) ? simos_hooks.mutex_timedlock_(m, ts) : __real_pthread_mutex_timedlock(m, ts); }
+
+/* ---- process-wide kernel state (reported to the engine, then forwarded) ---- */
+#include <sys/resource.h>
+int __real_getrlimit(int, struct rlimit *);
+int __real_setrlimit(int, const struct rlimit *);
+int __real_sigaction(int, const struct sigaction *, struct sigaction *);
+mode_t __real_umask(mode_t);
+int __wrap_getrlimit(int r, struct rlimit *l) {
+    if (HOOKED(process_state_)) simos_hooks.process_state_(0, r, 0);
+    if (HOOKED(getrlimit_)) return simos_hooks.getrlimit_(r, l);
+    return __real_getrlimit(r, l);
+}
+int __wrap_setrlimit(int r, const struct rlimit *l) {
+    if (HOOKED(process_state_)) simos_hooks.process_state_(0, r, 1);
+    if (HOOKED(setrlimit_)) return simos_hooks.setrlimit_(r, l);
+    return __real_setrlimit(r, l);
+}
+int __wrap_sigaction(int sig, const struct sigaction *a, struct sigaction *o) { if (HOOKED(process_state_)) simos_hooks.process_state_(1, sig, a != NULL); return __real_sigaction(sig, a, o); }
+mode_t __wrap_umask(mode_t m) { if (HOOKED(process_state_)) simos_hooks.process_state_(2, 0, 1); return __real_umask(m); }
